@@ -2,17 +2,19 @@
 """keepseed.py Cxx N : copy /tmp/wt-Cxx/SEEDED/N into /verif/seeded/Cxx-N (patch.diff, DEMO.md, demo inputs, meta.json)."""
 import sys,os,shutil,json,glob
 prop,n=sys.argv[1],sys.argv[2]
-src=f'/tmp/wt-{prop}/SEEDED/{n}'
-dst=f'/verif/seeded/{prop}-{n}'
+root=sys.argv[3] if len(sys.argv)>3 else f'/tmp/wt-{prop}'
+dn=sys.argv[4] if len(sys.argv)>4 else n
+src=f'{root}/SEEDED/{n}'
+dst=f'/verif/seeded/{prop}-{dn}'
 os.makedirs(dst,exist_ok=True)
 for f in glob.glob(src+'/*'):
     if os.path.isdir(f): continue
     if os.path.getsize(f)>200000: continue
     shutil.copy(f,dst)
 m=json.load(open(dst+'/meta.json'))
-m['id']=f'{prop}-{n}'
+m['id']=f'{prop}-{dn}'
 m['target_property']=prop
 m['origin']='fresh sub-agent given only the property text and a scratch worktree'
-m['confirmed']={'applies_to':'/repo HEAD a68f7a3','repo_tests':'166 passed with the patch applied alone (tools/confirmseed.sh)'}
+m['confirmed']={'applies_to':'/repo HEAD at the time the worktree was made (see base)','repo_tests':'166 passed with the patch applied alone (tools/confirmseed.sh)'}
 json.dump(m,open(dst+'/meta.json','w'),indent=1)
 print('kept',dst)
